@@ -5,6 +5,10 @@ from ..engines import labelkind as LK
 
 
 def run(ctx):
+    # language-level slips in the modules the property is anchored in (engine Y)
+    from ..engines import gotchas as GY
+    GY.run(ctx, ('bijection', 'specification_extrator', 'isomorphism'))
+    ctx.floor("Y", 1)
     ctx.extra["explanation"] = (
         "static analysis (ast, no execution): label-kind inference (raw start label vs "
         "equivalence representative) at the specification-building site of the parallel finder "
@@ -26,7 +30,7 @@ def run(ctx):
     ctx.floor("K17", 3)
     from ..engines import bijplumb as B
     B.b1_permutation_convention(ctx, only_sibling=True)
-    B.b4_matching_complete(ctx, classes=(("ParallelSpecFinder", "_find"),))
+    B.b4_matching_complete(ctx, classes=(("ParallelSpecFinder", "_find"), ("Isomorphism", "_are_isomorphic")))
     B.b8_two_sided_acceptance(ctx)
     # "isomorphic to each other" is judged by the matcher: it must read specifications the way they are built
     B.b7_equivalence_steps(ctx)
@@ -38,7 +42,7 @@ def run(ctx):
     ctx.floor("B11", 1)
     ctx.floor("B12", 1)
     ctx.floor("B1", 1)
-    ctx.floor("B4", 3)
+    ctx.floor("B4", 6)
     ctx.floor("B8", 2)
     ctx.floor("K11", 1)
     ctx.floor("K8", 4)
